@@ -3,7 +3,7 @@
    deliveries), EnsembleEvaluator._expand_gradients, _get_mask / _init_samplers, the order in which
    _perturb_variables runs the samplers, and how samplers fill only their own variables.
    Definitions only; lemmas are in Proofs/Mask.v. *)
-From Coq Require Import QArith ZArith List Bool Arith.
+From Coq Require Import QArith Qabs ZArith List Bool Arith.
 From Ropt Require Import Base.Num Base.ListX Model.Bounds.
 Import ListNotations.
 Open Scope Q_scope.
@@ -102,6 +102,46 @@ Fixpoint last_delivered (cur : list Q) (reqs : list request) : list Q :=
 (* samples of the samplers in [order], each filled into its own variable set, summed *)
 Definition fill3 (m : option (list bool)) (dense : arr3) : arr3 := map (map (sampler_fill m)) dense.
 Definition zero3 (m : option (list bool)) (full : arr3) : arr3 := map (map (mask_zero m)) full.
+
+(* _perturb_variables: the samplers that own a variable run in order of first appearance, each fills its own
+   variable set (the scripted test sampler: np.where(mask, script, 0)), the arrays are added *)
+Definition run_samplers (gs : option (list Z)) (mask : option (list bool)) (scripts : list arr3) : arr3 :=
+  sum_samples (map (fun k => zero3 (sampler_mask k gs mask) (nth (Z.to_nat k) scripts [])) (sampler_order gs)).
+(* positions written by some sampler that runs: free, and (when samplers are assigned) a non-negative index *)
+Definition owned (gs : option (list Z)) (mask : option (list bool)) (n : nat) : list bool :=
+  let m := match mask with Some mk => mk | None => repeat true n end in
+  match gs with
+  | None => m
+  | Some g => map2 (fun (b : bool) z => b && negb (z <? 0)%Z) m g
+  end.
+(* positions no sampler owns keep the evaluated vector's entry, bit for bit, when that entry is inside its bounds *)
+Fixpoint unowned_kept (own : list bool) (lbs ubs : list ereal) (v p : list Q) : bool :=
+  match own, lbs, ubs, v, p with
+  | [], [], [], [], [] => true
+  | o :: own', l :: lbs', u :: ubs', x :: v', y :: p' =>
+      (o || negb (inb l u x) || Qeqb y x) && unowned_kept own' lbs' ubs' v' p'
+  | _, _, _, _, _ => false
+  end.
+
+(* ---- the function-value cache of EnsembleEvaluator.calculate ------------------------------------- *)
+(* np.allclose(cached, variables, rtol=0, atol=1e-15) on the FULL vectors (fixed variables included) *)
+Definition cache_atol : Q := Q_ 1 1000000000000000.
+Definition same_point (a b : list Q) : bool := forallb2 (fun x y => Qleb (Qabs (x - y)) cache_atol) a b.
+Inductive eval_plan :=
+| EvFunctions (vs : list (list Q))     (* _calculate_functions: R rows per vector; caches the FIRST vector *)
+| EvGradCached (v : list Q)            (* _calculate_gradients: perturbed rows only, functions from the cache *)
+| EvBoth (v : list Q).                 (* _calculate_both: R rows, then the perturbed rows; clears the cache *)
+Definition evaluate (cache : option (list Q)) (f g : bool) (vs : list (list Q)) : eval_plan * option (list Q) :=
+  if f && negb g then (EvFunctions vs, match vs with v :: _ => Some v | [] => cache end)
+  else if negb g then (EvFunctions [], cache)     (* assertion failure in the source: nothing requested *)
+  else match vs with
+       | [v] =>
+           match cache with
+           | Some c => if negb f && same_point c v then (EvGradCached v, cache) else (EvBoth v, None)
+           | None => (EvBoth v, None)
+           end
+       | _ => (EvFunctions [], cache)     (* assertion failure in the source: gradients need one vector *)
+       end.
 
 (* agreement of two vectors on the positions where the mask is false *)
 Fixpoint agree_fixed (mask : list bool) (a b : list Q) : bool :=
